@@ -143,13 +143,9 @@ func (v *valuesVisitor) valueSatisfiesOperationListType(value ast.Value, operati
 		return v.valueSatisfiesOperationType(value, listItemType)
 	}
 
-	if v.operation.Types[listItemType].TypeKind == ast.TypeKindNonNull {
-		if len(v.operation.ListValues[value.Ref].Refs) == 0 {
-			// [] empty list is a valid input for [item!] lists
-			return true
-		}
-		listItemType = v.operation.Types[listItemType].OfType
-	}
+	// The items are checked against the item type as it is: for [item!] the non-null
+	// check of every item rejects null. [] is a valid input for [item!] lists, the
+	// loop below has nothing to check then.
 
 	valid := true
 
@@ -240,13 +236,9 @@ func (v *valuesVisitor) valueSatisfiesListType(value ast.Value, definitionTypeRe
 		return v.valueSatisfiesInputValueDefinitionType(value, listItemType)
 	}
 
-	if v.definition.Types[listItemType].TypeKind == ast.TypeKindNonNull {
-		if len(v.operation.ListValues[value.Ref].Refs) == 0 {
-			// [] empty list is a valid input for [item!] lists
-			return true
-		}
-		listItemType = v.definition.Types[listItemType].OfType
-	}
+	// The items are checked against the item type as it is: for [item!] the non-null
+	// check of every item rejects null. [] is a valid input for [item!] lists, the
+	// loop below has nothing to check then.
 
 	valid := true
 
